@@ -60,3 +60,20 @@ Theorem C08_allowance_antitone_in_tokens : forall w s1 s2,
   is_finite 53 1024 (allowed_of (with_stored w s2)) = true ->
   fle (allowed_of (with_stored w s2)) (allowed_of (with_stored w s1)) = true.
 Proof. exact c08_allowed_antitone. Qed.
+
+(** for sane parameters (1 <= q <= 2^30, cold factor and period up to 2^20) the allowance lies between
+    about q/c and about q whatever the stored tokens (all binary64 roundings included, slack 2^-40): the
+    rule never allows more than q, and never less than about q/c *)
+From SV Require Import Proofs.C08Bounds.
+Theorem C08_allowance_between_cold_and_full : forall thr cold period s,
+  is_finite 53 1024 thr = true ->
+  (1 <= B2R 53 1024 thr <= 1073741824)%R ->
+  (cold <= 1048576)%N -> (1 <= period <= 1048576)%N ->
+  let w := wu_new thr cold period in
+  (s <= wu_max w)%N ->
+  let q := B2R 53 1024 thr in
+  let c := IZR (Z.of_N (if (cold <=? 1)%N then 3%N else cold)) in
+  let a := B2R 53 1024 (allowed_of (with_stored w s)) in
+  is_finite 53 1024 (allowed_of (with_stored w s)) = true /\
+  (q / c * (1 - / 1099511627776) <= a <= q * (1 + / 1099511627776))%R.
+Proof. exact c08_allowance_bounds. Qed.
